@@ -13,3 +13,13 @@ for c in man["checks"]:
     exp[p] = {"functions": int(len(cov["functions_under_contract"]) * 0.8), "headline": int(cov["headline_obligations"] * 0.8)}
 json.dump(exp, open("/verif/expected.json", "w"), indent=1, sort_keys=True)
 print("expected.json:", len(exp), "properties")
+# names recorded from the tree the contracts were written against (run this on the unchanged, committed tree only):
+# parameter / result / captured-variable / loop-variable / in-memory local names, used to keep a contract's names
+# resolvable after a pure renaming (govc/names.go)
+import subprocess
+r = subprocess.run(["/verif/bin/govc", "names", "/repo"], capture_output=True, text=True)
+if r.returncode == 0 and r.stdout.strip().startswith("{"):
+    json.dump(json.loads(r.stdout), open("/verif/names.json", "w"), indent=0, sort_keys=True)
+    print("names.json written")
+else:
+    print("names.json NOT written:", r.stderr[-300:])
